@@ -1,31 +1,47 @@
-"""Import a sub-agent's deliverables (/tmp/out_<pid>/{patch,demo,notes}<k>) into /verif/seeded/<pid>-<k>/."""
+"""Import a sub-agent's deliverables into /verif/seeded/<id>/.
+   rounds 1, 2:  python -m hv.seedimport C07 [2]     (/tmp/out_C07 or /tmp/out2_C07  ->  C07-1.. / C07-3..)
+   round 3:      python -m hv.seedimport A7 3        (/tmp/out3_A7; property read from the first line of notes<k>.md -> Cxx-A7-k)"""
 import json
 import os
+import re
 import shutil
 import sys
 
+
 def main():
-    pid = sys.argv[1]
+    key = sys.argv[1]
     rnd = int(sys.argv[2]) if len(sys.argv) > 2 else 1
-    src = f'/tmp/out_{pid}' if rnd == 1 else f'/tmp/out{rnd}_{pid}'
-    for k in (1, 2):
-        if not os.path.exists(f'{src}/patch{k}.diff'):
+    src = f'/tmp/out_{key}' if rnd == 1 else f'/tmp/out{rnd}_{key}'
+    for k in (1, 2, 3):
+        if not (os.path.exists(f'{src}/patch{k}.diff') and os.path.exists(f'{src}/demo{k}.py')):
             continue
-        d = f'/verif/seeded/{pid}-{k + 2 * (rnd - 1)}'
+        notes = open(f'{src}/notes{k}.md').read() if os.path.exists(f'{src}/notes{k}.md') else ''
+        if rnd < 3:
+            pid = key
+            sid = f'{pid}-{k + 2 * (rnd - 1)}'
+        else:
+            m = re.search(r'PROPERTY:\s*(C\d\d)', notes)
+            pid = m.group(1) if m else 'C00'
+            sid = f'{pid}-{key}-{k}'
+        d = f'/verif/seeded/{sid}'
         os.makedirs(d, exist_ok=True)
         shutil.copy(f'{src}/patch{k}.diff', f'{d}/patch.diff')
         shutil.copy(f'{src}/demo{k}.py', f'{d}/demo.py')
-        if os.path.exists(f'{src}/notes{k}.md'):
-            shutil.copy(f'{src}/notes{k}.md', f'{d}/notes.md')
+        if notes:
+            open(f'{d}/notes.md', 'w').write(notes)
         meta_path = f'{d}/meta.json'
         meta = json.load(open(meta_path)) if os.path.exists(meta_path) else {}
-        meta.setdefault('id', os.path.basename(d))
+        meta.setdefault('id', sid)
         meta.setdefault('round', rnd)
         meta.setdefault('property', pid)
-        meta.setdefault('origin', 'independent sub-agent given only the property text, a private worktree and a neutral emulator driver')
-        notes = open(f'{d}/notes.md').read() if os.path.exists(f'{d}/notes.md') else ''
+        meta.setdefault('origin', 'independent sub-agent given only the property text(s), a private worktree and a neutral emulator driver'
+                        + (f'; round 3: free choice of property, confined to compiler area {key}' if rnd == 3 else ''))
         meta.setdefault('needs_to_manifest', 'see notes.md')
+        if rnd == 3 and 'summary' not in meta:
+            lines = [l.strip() for l in notes.splitlines() if l.strip() and not l.startswith('PROPERTY')]
+            meta['summary'] = (lines[0][:160] if lines else '')
         json.dump(meta, open(meta_path, 'w'), indent=1)
         print('imported', d)
+
 
 main()
